@@ -188,7 +188,7 @@ func renderRule(sb *strings.Builder, r *Rule) {
 		var extra []string
 		if li == 0 {
 			extra = append(extra, fmt.Sprintf("id:%d", r.ID), fmt.Sprintf("phase:%d", r.Phase))
-			if r.Status != 0 {
+			if r.Status != 0 && !r.StatusLast {
 				extra = append(extra, fmt.Sprintf("status:%d", r.Status))
 			}
 			if r.Sev >= 0 {
@@ -205,6 +205,9 @@ func renderRule(sb *strings.Builder, r *Rule) {
 			}
 		}
 		acts := renderLinkActs(l, extra, li < len(r.Links)-1)
+		if li == 0 && r.Status != 0 && r.StatusLast {
+			acts += fmt.Sprintf(",status:%d", r.Status) // written after the disruptive action
+		}
 		indent := strings.Repeat("  ", li)
 		if l.HasOp {
 			if acts == "" {
